@@ -215,15 +215,14 @@ func checkC06(c *Ctx) {
 			if !c.Quick && r.P(0.06) {
 				cells = pickOne(r, []int{127, 128, 129})
 			}
-		} else if rk.name == "octree" && cells > 128 {
-			cells = 128 // the octree works on the next power of two: 129.. cells cost 256^3 samples each
+		} else if rk.name == "octree" && cells > 120 {
+			cells = 120 // the octree works on the next power of two above 1.01 x cells: 127.. cells cost 256^3 samples each
 		}
-		w := int64(cells)
+		w := int64(cells) * int64(cells) * int64(cells)
 		if rk.name == "octree" {
-			for w = 1; w < int64(cells); w *= 2 {
-			}
+			w = octreeNodes(cells)
 		}
-		defer gate.enter(w * w * w)()
+		defer gate.enter(w)()
 		sh := c06MakeShape(r, i)
 		cs := c06Case{i, rk.name, cells, sh.desc}
 		rd := rk.mk(cells)
